@@ -135,6 +135,8 @@ func c20KnockRoles(c *Ctx, snd *ssa.Send, key string) {
 	}
 }
 
+var c20Items, c20EqFn = "items", "uniqueFunc"
+
 func c20Set(c *Ctx) {
 	p := c.P
 	us := p.Type(canaryRel, "UniqueSet")
@@ -145,13 +147,19 @@ func c20Set(c *Ctx) {
 	if !c.Anchor(us != nil && add != nil && rem != nil && each != nil && cnt != nil, "unique-set", "canary.UniqueSet with Add/Remove/Each/Count") {
 		return
 	}
+	// fields by role: the element list (the only slice field) and the equality function (the only func field)
+	c20Items = fieldByType(us, func(t types.Type) bool { _, ok := t.Underlying().(*types.Slice); return ok })
+	c20EqFn = fieldByType(us, func(t types.Type) bool { _, ok := t.Underlying().(*types.Signature); return ok })
+	if !c.Anchor(c20Items != "" && c20EqFn != "", "unique-set", "UniqueSet's element list and equality function fields") {
+		return
+	}
 	// --- Add
 	nhit, napp := 0, 0
 	for i, r := range Returns(add) {
 		rv := RetVals(r)[0]
 		key := fmt.Sprintf("UniqueSet.Add return[%d]", i)
 		switch {
-		case rangeElemOfField(Unwrap(rv), "items"):
+		case rangeElemOfField(Unwrap(rv), c20Items):
 			nhit++
 			ok := false
 			for _, dc := range DomConds(r) {
@@ -159,7 +167,7 @@ func c20Set(c *Ctx) {
 				if !okc || !dc.Pol || call.Call.StaticCallee() != nil || call.Call.IsInvoke() {
 					continue
 				}
-				if _, okf := isFieldLoadNamed(call.Call.Value, "uniqueFunc"); okf && len(call.Call.Args) == 2 {
+				if _, okf := isFieldLoadNamed(call.Call.Value, c20EqFn); okf && len(call.Call.Args) == 2 {
 					a0, a1 := call.Call.Args[0], call.Call.Args[1]
 					if (a0 == ssa.Value(add.Params[1]) && a1 == rv) || (a1 == ssa.Value(add.Params[1]) && a0 == rv) {
 						ok = true
@@ -178,12 +186,12 @@ func c20Set(c *Ctx) {
 						continue
 					}
 					fa, okf := st.Addr.(*ssa.FieldAddr)
-					if !okf || fieldNameOf(fa) != "items" {
+					if !okf || fieldNameOf(fa) != c20Items {
 						continue
 					}
 					if call, okc := st.Val.(*ssa.Call); okc {
 						if bi, okb := call.Call.Value.(*ssa.Builtin); okb && bi.Name() == "append" {
-							if _, okl := isFieldLoadNamed(call.Call.Args[0], "items"); okl && appendedElem(call.Call.Args[1]) == ssa.Value(add.Params[1]) && b.Dominates(r.Block()) {
+							if _, okl := isFieldLoadNamed(call.Call.Args[0], c20Items); okl && appendedElem(call.Call.Args[1]) == ssa.Value(add.Params[1]) && b.Dominates(r.Block()) {
 								ok = true
 							}
 						}
@@ -211,7 +219,7 @@ func c20Set(c *Ctx) {
 				continue
 			}
 			fa, ok := st.Addr.(*ssa.FieldAddr)
-			if !ok || fieldNameOf(fa) != "items" {
+			if !ok || fieldNameOf(fa) != c20Items {
 				continue
 			}
 			s := Render(st.Val)
@@ -219,7 +227,7 @@ func c20Set(c *Ctx) {
 			guarded := false
 			for _, dc := range DomConds(st) {
 				x, y, okq := eqCond(dc)
-				if okq && ((x == ssa.Value(rem.Params[1]) && rangeElemOfField(y, "items")) || (y == ssa.Value(rem.Params[1]) && rangeElemOfField(x, "items"))) {
+				if okq && ((x == ssa.Value(rem.Params[1]) && rangeElemOfField(y, c20Items)) || (y == ssa.Value(rem.Params[1]) && rangeElemOfField(x, c20Items))) {
 					guarded = true
 				}
 			}
@@ -234,7 +242,7 @@ func c20Set(c *Ctx) {
 			for _, b2 := range rem.Blocks {
 				for _, in2 := range b2.Instrs {
 					if st2, ok := in2.(*ssa.Store); ok && st2 != st && r(st2) {
-						if fa2, ok := st2.Addr.(*ssa.FieldAddr); ok && fieldNameOf(fa2) == "items" {
+						if fa2, ok := st2.Addr.(*ssa.FieldAddr); ok && fieldNameOf(fa2) == c20Items {
 							again = true
 						}
 					}
@@ -250,7 +258,7 @@ func c20Set(c *Ctx) {
 	okCnt := false
 	for _, r := range Returns(cnt) {
 		if x, ok := isLenOf(RetVals(r)[0]); ok {
-			if _, ok := isFieldLoadNamed(x, "items"); ok {
+			if _, ok := isFieldLoadNamed(x, c20Items); ok {
 				okCnt = true
 			}
 		}
@@ -310,7 +318,7 @@ func c20Set(c *Ctx) {
 			if call, ok := in.(*ssa.Call); ok {
 				if bi, ok := call.Call.Value.(*ssa.Builtin); ok && bi.Name() == "copy" {
 					if _, ok := call.Call.Args[0].(*ssa.MakeSlice); ok {
-						if _, ok := isFieldLoadNamed(call.Call.Args[1], "items"); ok {
+						if _, ok := isFieldLoadNamed(call.Call.Args[1], c20Items); ok {
 							alias = false
 						}
 					}
@@ -568,8 +576,32 @@ func c20Detector(c *Ctx) {
 		}
 	}
 	c.Check(okAdd, "detector", "record added to its group's set", p.Pos(kd.Pos()), "", "the received knock record is not added to the Knocks set of the group found for it")
+	// the port list may be assembled in the flush closure itself or in a helper it calls (group.portList())
+	var plFns []*ssa.Function
+	{
+		seenPL := map[*ssa.Function]bool{}
+		var addPL func(f *ssa.Function, d int)
+		addPL = func(f *ssa.Function, d int) {
+			if f == nil || seenPL[f] || f.Blocks == nil || d > 2 {
+				return
+			}
+			seenPL[f] = true
+			plFns = append(plFns, f)
+			for _, a := range f.AnonFuncs {
+				addPL(a, d)
+			}
+			for _, call := range Calls(f) {
+				if cal := call.Common().StaticCallee(); cal != nil && InRepo(cal) && PkgOf(cal) == PkgOf(kd) {
+					addPL(cal, d+1)
+				}
+			}
+		}
+		for _, an := range Anon(kd) {
+			addPL(an, 0)
+		}
+	}
 	// port list: make([]string, Count()) and filled by index inside Each of the same set with three type arms
-	for _, an := range Anon(kd) {
+	for _, an := range plFns {
 		for _, b := range an.Blocks {
 			for _, in := range b.Instrs {
 				ms, ok := in.(*ssa.MakeSlice)
@@ -583,7 +615,7 @@ func c20Detector(c *Ctx) {
 	}
 	// label arms
 	labels := map[string]bool{}
-	for _, an := range Anon(kd) {
+	for _, an := range plFns {
 		for _, b := range an.Blocks {
 			for _, in := range b.Instrs {
 				if ta, ok := in.(*ssa.TypeAssert); ok && ta.CommaOk {
@@ -599,7 +631,7 @@ func c20Detector(c *Ctx) {
 		c.Check(labels[k], "port-list", "label arm for "+k, p.Pos(kd.Pos()), "", "the port list has no arm for "+k+" records (they would be listed as empty strings)")
 	}
 	// label/protocol pairing: "tcp/%d" under KnockTCPPort assertion etc.
-	for _, an := range Anon(kd) {
+	for _, an := range plFns {
 		for _, call := range Calls(an) {
 			f := call.Common().StaticCallee()
 			if f == nil || f.Name() != "Sprintf" {
